@@ -7,7 +7,7 @@ pub const CHAINS: [&str; 6] = ["ethereum", "avalanche", "sui", "axelar", "héllo
 pub const HUB_CHAIN: &str = "axelar";
 pub const NAMES: [&str; 4] = ["Test Token", "t", "Unicode Token 🪙", ""];
 pub const SYMS: [&str; 4] = ["TST", "T", "UNI🔣", ""];
-pub const DECIMALS: [u32; 6] = [0, 7, 18, 255, 256, 6];
+pub const DECIMALS: [u32; 8] = [0, 7, 18, 255, 256, 6, 274, u32::MAX];
 
 #[derive(Serialize, Deserialize, Clone, Debug)]
 pub struct ICfg {
